@@ -85,6 +85,10 @@ V_ASSIGNS(*val, g.fetch_calls; ctr != NULL: *ctr)
 V_ENSURES(g.fetch_calls == V_OLD(g.fetch_calls) + 1)
 ;
 
+/* the guard every module call starts with (M_MOD_ASSERT): module exists, is not a zombie, belongs to the calling thread's context */
+#define V_G_MOD(mod)        ((mod) != NULL && !((mod)->state & M_MOD_ZOMBIE) && (mod)->ctx == g_mctx)
+#define V_G_RUNNING(mod)    (V_G_MOD(mod) && ((mod)->state & M_MOD_RUNNING) != 0)
+
 /* ---- other core files, as seen from a caller ------------------------------------------------------------------- */
 /* m_ctx(): the calling thread's context, or NULL (none registered / current module denies context access); verified
  * against the real function in units/ctx_unit.c (h_m_ctx).  g_mctx is the ghost value it returns in this pre-state. */
